@@ -727,6 +727,35 @@ func ruleGate(r *Run) {
 		}
 		return false
 	}
+	// an edge that says nothing about this caller: a call of a parameter ("param"), or a
+	// function value handed on to a callee that is itself only a parameter of the caller
+	// (`go mapOne(v, mapFunc, …)` inside a higher-order helper) — which function that is depends
+	// on the caller's caller, whose own call site carries the context-sensitive edge
+	insensitive := func(e *Edge) bool {
+		if e.Kind == "param" {
+			return true
+		}
+		if e.Kind != "hoarg" {
+			return false
+		}
+		viaParam := false
+		for _, a := range e.Site.Common().Args {
+			if _, isSig := a.Type().Underlying().(*types.Signature); !isSig {
+				continue
+			}
+			if _, isParam := a.(*ssa.Parameter); isParam {
+				viaParam = true
+				continue
+			}
+			fs, _ := r.P.CG.funcValues(a, map[ssa.Value]bool{})
+			for _, f := range fs {
+				if origin(f) == e.Callee {
+					return false
+				}
+			}
+		}
+		return viaParam
+	}
 	D := map[*ssa.Function]bool{}
 	for fn := range req {
 		for _, e := range r.P.CG.Ext[fn] {
@@ -742,7 +771,7 @@ func ruleGate(r *Run) {
 				continue
 			}
 			for _, e := range r.P.CG.Out[fn] {
-				if e.Kind != "param" && D[e.Callee] {
+				if !insensitive(e) && D[e.Callee] {
 					D[fn] = true
 					changed = true
 					break
@@ -776,7 +805,7 @@ func ruleGate(r *Run) {
 	for _, fn := range fns {
 		seen := map[ssa.CallInstruction]bool{}
 		for _, e := range r.P.CG.Out[fn] {
-			if e.Kind == "param" || !D[e.Callee] {
+			if insensitive(e) || !D[e.Callee] {
 				continue
 			}
 			sites = append(sites, siteRec{fn, e.Site, "reaches-sink via " + fnName(e.Callee), e.Callee})
